@@ -48,3 +48,34 @@ func HarnessC19Iframes() {
 		"an iframe of a host that is not allow-listed is in the distilled HTML: "+place)
 	vx.Assert(strings.Count(out, "<iframe") <= strings.Count(place, "youtube.com/embed"), "an unrecognised iframe element is in the distilled HTML")
 }
+
+// HarnessC19Folding: hosts that become an allow-listed name only under Unicode
+// case folding (KELVIN SIGN for k, dotted capital I, long s) are foreign hosts:
+// concrete probes through the whole converter, no placeholder may appear.
+func HarnessC19Folding() {
+	src := []string{
+		"https://www.youtube-nocooKie.com/embed/abc",
+		"https://www.youtube-nocooKie.com/v/abc",
+		"https://player.vİmeo.com/video/123",
+		"https://platform.twİtter.com/embed/x",
+		"https://www.youtube.comK/embed/abc",
+		"https://player.vimeo.comſ/video/123",
+		"https://www.K.youtube.com.evil.example/embed/abc",
+	}[vx.Choose("src", 7)]
+	el := []string{
+		`<iframe src="%s" data-tweet-id="123"></iframe>`,
+		`<object data="%s" type="application/x-shockwave-flash"><param name="movie" value="%s"></object>`,
+		`<embed src="%s">`,
+	}[vx.Choose("el", 3)]
+	doc := vx.ParseHTML("<html><head><title>T</title></head><body><p>alpha beta</p>" + strings.ReplaceAll(el, "%s", src) + "<p>gamma</p></body></html>")
+	b := webdoc.NewWebDocumentBuilder(c19Counter{}, nil)
+	converter.NewDomConverter(converter.Default, b, nil, nil).Convert(dom.QuerySelector(doc, "html"))
+	wd := b.Build()
+	for _, e := range wd.Elements {
+		e.SetIsContent(true)
+	}
+	out := wd.GenerateOutput(false)
+	vx.Cover("folding")
+	vx.Assert(!strings.Contains(out, "embed-placeholder"), "a host that equals an allow-listed name only under Unicode case folding got an embed placeholder: "+src)
+	vx.Assert(!strings.Contains(out, "<iframe") && !strings.Contains(out, "<object") && !strings.Contains(out, "<embed"), "an unrecognised embed element is in the distilled HTML")
+}
